@@ -9,6 +9,10 @@ import apigen, genrun, libhost
 
 PACKAGES = [("acme.lib.v1", "acme/lib/v1"), ("google.cloud.bookstore.v1beta1", "google/cloud/bookstore/v1beta1"),
             ("acme.lib", "acme/lib"), ("acme.inventory.v1p1beta1", "acme/inventory/v1p1beta1"), ("solo.v2", "solo/v2")]
+# proto packages that are only <name>.<version> (or <name>): `naming.module_namespace == ()`; the library is emitted as
+# the top-level package <name>_<version>
+NO_NAMESPACE_PACKAGES = [("solo.v2", "solo/v2"), ("mollusca.v1", "mollusca/v1"), ("shelf.v1beta1", "shelf/v1beta1"),
+                         ("inventory.v1p1beta1", "inventory/v1p1beta1"), ("solo", "solo")]
 TRANSPORTS = ["grpc", "rest", "grpc+rest", "rest+grpc"]
 # (a service whose snake_case name is a Python keyword — `Import`, `Class`, `Lambda` — makes the package
 #  unimportable: `from .services.import import ImportClient`; C12/C01's subject, excluded here)
@@ -82,15 +86,20 @@ def gen_message(r, name):
     return {"name": name, "fields": fields}
 
 
-def gen_spec(r, idx, transport=None):
-    pkg, pdir = r.pick(PACKAGES)
+def gen_spec(r, idx, transport=None, no_namespace=False):
+    """no_namespace: the API's library package has NO namespace part (proto package `<name>.<version>` and no
+    python-gapic-namespace option); such a package cannot be imported (C01's subject) and is observed statically"""
+    pkg, pdir = r.pick(NO_NAMESPACE_PACKAGES) if no_namespace else r.pick(PACKAGES)
     spec = {"package": pkg, "dir": pdir, "transport": transport or TRANSPORTS[idx % len(TRANSPORTS)],
             "messages": [], "services": [], "n_files": r.pick([1, 1, 2, 2, 3]), "namespace_opt": None, "name_opt": None,
             "add_iam": False, "mixins": []}
-    if r.maybe(0.15) or pkg.count(".") < 2:
+    if no_namespace:
+        pass
+    elif r.maybe(0.15) or pkg.count(".") < 2:
         # a proto package without a namespace component (`solo.v2`) generates since 71dd1fd, but its package
         # __init__ reads `from .solo_v2 import gapic_version` (module_namespace|join('.') + "." + …) and cannot be
-        # imported: C01's subject; here such packages always get a namespace option (corpus probe: no_namespace_package)
+        # imported: C01's subject; in THIS stream such packages always get a namespace option. The namespace-less
+        # class has its own stream (`no_namespace=True`), observed statically (see static_index)
         spec["namespace_opt"] = r.pick(["corp", "corp.cloud"])
     if r.maybe(0.15):
         spec["name_opt"] = r.pick(["shelfware", "BookKit"])
@@ -197,7 +206,7 @@ def corpus_specs():
     s["services"] = [{"name": "Library", "methods": [{"name": "GetBook", "input": "GetBookRequest", "internal": False, "ss": False, "cs": False, "lro": False}]},
                      {"name": "Archive", "methods": [{"name": "GetBook", "input": "ArchiveGetBookRequest", "internal": False, "ss": False, "cs": False, "lro": False}]}]
     out.append(("shared_rpc_name", s))
-    # (3a) excluded point, informational: proto package without a namespace component
+    # (3a) proto package without a namespace component (not importable: observed statically)
     s = base("grpc")
     s["package"], s["dir"] = "solo.v2", "solo/v2"
     s["services"] = [{"name": "Library", "methods": [{"name": "Ping", "input": "google.protobuf.Empty", "internal": False, "ss": False, "cs": False, "lro": False}]}]
@@ -236,6 +245,11 @@ def corpus_specs():
         {"name": "Import", "input": "ImportRequest", "internal": True, "ss": False, "cs": False, "lro": False}]},
         {"name": "Archive", "methods": [{"name": "Return", "input": "google.protobuf.Empty", "internal": False, "ss": False, "cs": False, "lro": False}]}]
     out.append(("keyword_internal_reserved", s))
+    # (4b) the same API as a library WITHOUT a namespace part (proto package `<name>.<version>`), every transport set
+    for tr in ("grpc", "rest", "grpc+rest"):
+        t = copy.deepcopy(s)
+        t["package"], t["dir"], t["transport"] = "mollusca.v1", "mollusca/v1", tr
+        out.append(("no_namespace_" + tr.replace("+", "_"), t))
     # (5) internal service + keyword RPC under every transport set, three proto files, Locations mixin, legacy IAM
     for tr in TRANSPORTS:
         s = base(tr)
@@ -463,6 +477,82 @@ def parse_fixup(src):
     return None, None
 
 
+def library_dirs(byname):
+    """directories that hold the emitted library: parents of `services/<service>/client.py` (the client classes
+    the metadata maps to are defined there)"""
+    out = set()
+    for n in byname:
+        parts = n.split("/")
+        if len(parts) >= 4 and parts[-1] == "client.py" and parts[-3] == "services" and parts[0] not in ("tests", "samples", "docs", "scripts"):
+            out.add("/".join(parts[:-3]))
+    return sorted(out)
+
+
+def static_index(byname, libdir):
+    """what the emitted SOURCE of the library package defines, read with `ast` (no import): for packages that cannot
+    be imported (a library without a namespace part: its __init__ reads `from .solo_v2 import gapic_version`, C01).
+    {"all": names in __all__ of <libdir>/__init__.py, "classes": {class: {def name: ([parameter names], is async def)}}
+     of services/*/client.py + async_client.py, "fields": {message class: [python field names, declaration order]}}"""
+    idx = {"all": [], "classes": {}, "fields": {}, "errors": []}
+
+    def tree_of(n):
+        try:
+            return ast.parse(byname[n])
+        except SyntaxError as e:
+            idx["errors"].append([n, "SyntaxError", str(e)[:200]])
+            return None
+    init = libdir + "/__init__.py"
+    if init in byname:
+        t = tree_of(init)
+        for st in (t.body if t else []):
+            if isinstance(st, ast.Assign) and any(isinstance(g, ast.Name) and g.id == "__all__" for g in st.targets):
+                try:
+                    idx["all"] = sorted(ast.literal_eval(st.value))
+                except ValueError:
+                    pass
+    for n in sorted(byname):
+        if not n.startswith(libdir + "/"):
+            continue
+        rel = n[len(libdir) + 1:].split("/")
+        if len(rel) == 3 and rel[0] == "services" and rel[2] in ("client.py", "async_client.py"):
+            t = tree_of(n)
+            for st in (t.body if t else []):
+                if isinstance(st, ast.ClassDef):
+                    defs = {}
+                    for d in st.body:
+                        if isinstance(d, (ast.FunctionDef, ast.AsyncFunctionDef)):
+                            defs[d.name] = ([a.arg for a in d.args.posonlyargs + d.args.args], isinstance(d, ast.AsyncFunctionDef))
+                    idx["classes"][st.name] = defs
+        elif len(rel) == 2 and rel[0] == "types" and rel[1].endswith(".py"):
+            t = tree_of(n)
+            for st in (ast.walk(t) if t else []):
+                if isinstance(st, ast.ClassDef):
+                    fl = []
+                    for d in st.body:
+                        if isinstance(d, ast.AnnAssign) and isinstance(d.target, ast.Name) and isinstance(d.value, ast.Call) \
+                                and isinstance(d.value.func, ast.Attribute) and d.value.func.attr in ("Field", "RepeatedField", "MapField"):
+                            fl.append(d.target.id)
+                    idx["fields"].setdefault(st.name, fl)
+    return idx
+
+
+def static_answer(idx, p):
+    """the library host's answer to plan entry `p`, from the static index"""
+    what = p[0]
+    if what in ("dir", "model-class"):
+        c = idx["classes"].get(p[3] if what == "dir" else p[1])
+        return {"names": sorted(c)} if c is not None else {"raised": "AttributeError", "msg": "no such class in the emitted source"}
+    if what == "registry":
+        return {"keys": None}
+    if what == "signature":
+        d = idx["classes"].get(p[3], {}).get(p[5])
+        return {"params": [[a] for a in d[0]], "coroutine": d[1]} if d is not None else {"raised": "AttributeError", "msg": "no such def"}
+    if what == "fields":
+        fl = idx["fields"].get(p[1])
+        return {"value": {f: None for f in fl}} if fl is not None else {"raised": "AttributeError", "msg": "no such message class"}
+    return {}
+
+
 # ---------------------------------------------------------------------------------------------
 # the emitted transformer, RUN on old-style call sites
 
@@ -661,10 +751,33 @@ def run_spec(ctx, spec, label, probe=None):
             return
         imp, fx = out[0], out[1]
         ctx.traces += 1
+        # the library as EMITTED: the directory that holds services/<service>/client.py
+        libdirs = library_dirs(byname)
+        libdir = libdirs[0] if len(libdirs) == 1 else None
+        importable = not imp.get("errors") and libpkg in imp.get("modules", [])
+        # a library without a namespace part (top-level package `solo_v2`) cannot be imported (its __init__ reads
+        # `from .solo_v2 import gapic_version`: C01's subject): the classes, methods and request fields are then
+        # read from the emitted source with `ast` instead of by introspection; everything else is observed as usual
+        static = (not importable) and libdir is not None and "/" not in libdir
+        ctx.count("library_package_shape", ("no namespace part" if libdir is not None and "/" not in libdir else "namespaced")
+                  + (", observed statically" if static else ""))
+        idx = None
+        if static:
+            idx = static_index(byname, libdir)
+            imp = dict(imp, all=idx["all"])
+            out = out[:2] + [static_answer(idx, p) for p in plan]
         # ------------------------------------------------------------------ oracle (statement, independent of the model)
         fails = []      # (key, what)
-        if imp.get("errors") or libpkg not in imp.get("modules", []):
-            fails.append(("library-package-not-importable", f"libraryPackage {libpkg!r}: {imp.get('errors')[:2]}"))
+        if libdir is None:
+            fails.append(("library-package", f"libraryPackage {libpkg!r}: the client classes are emitted into {libdirs}"))
+        elif libpkg != libdir.replace("/", "."):
+            fails.append(("library-package", f"libraryPackage {libpkg!r}, but the library (services/*/client.py, gapic_metadata.json: "
+                          f"{mfiles[0]}) is emitted as package {libdir.replace('/', '.')!r}"))
+        if static:
+            if idx["errors"]:
+                fails.append(("emitted-source-syntax", f"{idx['errors'][:2]}"))
+        elif not importable:
+            fails.append(("library-package-not-importable", f"libraryPackage {libpkg!r}: {(imp.get('errors') or [])[:2]}"))
         if md.get("protoPackage") != spec["package"]:
             fails.append(("proto-package", f"protoPackage {md.get('protoPackage')!r} for files of package {spec['package']!r}"))
         if dups:
@@ -712,7 +825,7 @@ def run_spec(ctx, spec, label, probe=None):
                     if kind == "grpc-async":
                         okk = all(flags)
                     else:
-                        okk = KIND_TRANSPORT[kind] in (reg.get("keys") or []) and not any(flags)
+                        okk = (static or KIND_TRANSPORT[kind] in (reg.get("keys") or [])) and not any(flags)
                     if not okk:
                         fails.append((f"client-kind-class:{kind}", f"{s['name']}/{kind}: class {client} does not serve that kind (registry {reg.get('keys')}, coroutine flags {flags})"))
                 rpcs = cdesc.get("rpcs", {})
@@ -879,7 +992,7 @@ def run_spec(ctx, spec, label, probe=None):
 
 
 # excluded points that lie inside the property's own quantifier: failures are reported under these key prefixes
-INFORMATIONAL = {"no_namespace_package"}    # outside this property's subject: counted, never reported
+INFORMATIONAL = set()    # names of corpus probes outside this property's subject: counted, never reported
 PROBE_KEYS = {"extended_operation_grpc_rest": ("extended-operation-async-method-missing", {"method-missing:grpc-async"})}
 
 
@@ -933,12 +1046,13 @@ def _run(ctx):
                 "plain pools (REQUIRED at random positions, repeated/map/optional/oneof/message/enum; field NUMBERS shuffled/gapped/reversed "
                 "independently of the declaration order), Empty requests, streaming and "
                 "LRO RPCs, optional Locations/IAMPolicy mixins and add-iam-methods, services spread over 1..3 proto files x transports "
-                "{grpc, rest, grpc+rest, rest+grpc}; per API 10..16 old-style call sites for the emitted transformer; distinct by API spec "
+                "{grpc, rest, grpc+rest, rest+grpc}; a second stream of the same APIs as libraries WITHOUT a namespace part (proto package "
+                "<name>.<version> or <name>, no namespace option; observed through the emitted source); per API 10..16 old-style call sites for the emitted transformer; distinct by API spec "
                 "and by (API, call site); every API is non-trivial")
     ctx.assume("one target proto package without sub-packages: service names are pairwise distinct (WF)")
     ctx.assume("RPC names are pairwise distinct up to case/underscores inside a service's snake_case image (two RPCs mapping to one python method name are C12's subject)")
     ctx.assume("no request message has both `x` and `x_` (python-level field names pairwise distinct)")
-    ctx.assume("the library package has a namespace component (proto package `solo.v2` without a namespace option emits `from .solo_v2 import gapic_version` in its __init__ and is not importable: C01's subject; probed informationally)")
+    ctx.assume("a library package without a namespace component (proto package `solo.v2`, no namespace option) emits `from .solo_v2 import gapic_version` in its __init__ and is not importable (C01's subject): for such APIs the classes, methods and request fields are read from the emitted source (ast) instead of by introspection, and importability is not demanded")
     ctx.assume("no service whose snake_case name is a Python keyword (`from .services.import import ImportClient`: C12/C01's subject)")
     ctx.assume("exported client class names are pairwise distinct (ClassNamesDistinct): no service `FooAsync` next to a service `Foo` — both would own a class FooAsyncClient (Props.C15.class_name_clash_counterexample; not generated)")
     ctx.assume("extended-operation RPCs (google.cloud.operation_service) are generated with transport=rest only; with gRPC transports the asyncio client only has `<m>_unary` (Props.C15.names_exist_extended_operation_async_counterexample; corpus probe, known finding)")
@@ -958,6 +1072,11 @@ def _run(ctx):
     for i in range(ctx.n(18, 360)):
         spec = gen_spec(r, i)
         run_spec(ctx, spec, f"api{i}")
+    # libraries without a namespace part (proto package `<name>.<version>`, no namespace option): own stream
+    r2 = ctx.rng("apis-no-namespace")
+    for i in range(ctx.n(4, 60)):
+        spec = gen_spec(r2, i, transport=TRANSPORTS[(i + i // 4) % len(TRANSPORTS)], no_namespace=True)
+        run_spec(ctx, spec, f"nons{i}")
 
 
 def search(ctx):
@@ -965,7 +1084,7 @@ def search(ctx):
     try:
         r = ctx.rng("search")
         for i in range(24):
-            run_spec(ctx, gen_spec(r, i), f"search{i}")
+            run_spec(ctx, gen_spec(r, i, no_namespace=(i % 3 == 2)), f"search{i}")
     finally:
         if path:
             try:
@@ -994,7 +1113,7 @@ CLAIM = dict(
           'its rows are exactly {(service, kind, client class, rpc, snake_case(client_method_name))} for the kinds implied by the '
           'transports (grpc => grpc + grpc-async, rest => rest) —, that every listed class/method is one the client templates emit '
           '(model of client.py.j2 / async_client.py.j2; hypotheses: exported class names distinct, no extended operations for '
-          'grpc-async), that proto and library package are recorded, that legacy_flattened_fields is the stable partition '
+          'grpc-async), that proto and library package are recorded (for a library without a namespace part the library package is the versioned module name itself: library_package_no_namespace), that legacy_flattened_fields is the stable partition '
           '"required first, otherwise declaration order" and a permutation of the request fields, and that the fix-up table has an '
           'entry for every RPC name (carrying exactly that RPC\'s fields when RPCs sharing a name share their request fields). '
           'Also modelled and proved: the add-iam-methods rows of the table (looked up with their fixed parameters) and the emitted '
@@ -1009,7 +1128,9 @@ CLAIM = dict(
           'the input descriptors (required first, declaration order, python-level field names of the emitted request class); the emitted '
           'transformer is RUN with libcst on generated old-style call sites (positional, surplus control arguments, keywords in and out '
           'of order, nested calls, already fixed calls, foreign and bare calls) and compared with the model and with the required-first '
-          'declaration order of the input descriptors.'),
+          'declaration order of the input descriptors. The library package named by the metadata is compared with the directory the '
+          'client classes are emitted into; APIs without a namespace part (proto package <name>.<version>; not importable, C01) are '
+          'generated in their own stream and their classes, methods and request fields are read from the emitted source with ast.'),
     technique='Lean 4 theorems (list permutation / no-duplicate arguments over a get_or_create model) + differential T2/T3 against the generator and the emitted package',
     design='7.15',
     note=('Naming (module namespace, versioned module name) is read from the real Naming object and is C11\'s subject. '
